@@ -240,10 +240,18 @@ static LD cast_to(int nt, LD v) { return round_to(nt, v); }
 static Verdict c16_cast(const Case& c) {
   const int q = (int)c.i[0], nt = (int)c.i[1], to = (int)c.i[2], via = (int)c.i[3];
   const VfQuantity* R = row(nt, q); const int n = R->ncomp;
-  LD src[9], out[9];
-  R->cast(to, via, c.r.data(), src, out);
-  const char* how = via == 0 ? "converting constructor" : "converting assignment";
-  Verdict V; V.cls = std::string(ntinfo(nt).name) + "->" + ntinfo(to).name + (via ? ";assign" : ";construct");
+  LD src[9], out[9], prior[9];
+  // via 2: the target of the assignment already holds (nearly) the value being assigned: the source value seen from the target type, moved by a few target-ulps
+  // - "g = s" right after "s = g" - so that the two compare equal in the coarser type; the assignment must still store the plain cast
+  for (int i = 0; i < 9; i++) {
+    const LD x = i < n ? round_to(nt, c.r[(size_t)i]) : 0; const int k = c.i.size() > 4 ? (int)((c.i[4] >> (2 * i)) & 3) : 0;
+    const int fine = ntinfo(to).mant > ntinfo(nt).mant ? to : nt;
+    prior[i] = round_to(to, x + (k - 1) * ulp_at(fine, x) * (ntinfo(to).mant > ntinfo(nt).mant ? 3 : 1));
+    if (!std::isfinite(prior[i])) prior[i] = round_to(to, x);
+  }
+  R->cast(to, via, c.r.data(), prior, src, out);
+  const char* how = via == 0 ? "converting constructor" : via == 1 ? "converting assignment" : "converting assignment into a target that holds nearly the same value";
+  Verdict V; V.cls = std::string(ntinfo(nt).name) + "->" + ntinfo(to).name + (via == 0 ? ";construct" : via == 1 ? ";assign" : ";assign-over-nearly-equal");
   bool inexact = false;
   if (R->kind == 2) {
     Q norm = 0;
@@ -274,7 +282,7 @@ static Verdict c16_cast(const Case& c) {
   // widening followed by narrowing is the identity
   if (ntinfo(to).mant > ntinfo(nt).mant) {
     const VfQuantity* W = row(to, q); LD s2[9], back[9];
-    W->cast(nt, via, out, s2, back);
+    W->cast(nt, via, out, src, s2, back);
     for (int i = 0; i < n; i++) if (!same_bits(nt, back[i], src[i]))
       return Verdict::fail(fmt("%s: <%s> -> <%s> -> <%s> by %s changes component %d from %s to %s", R->name, ntinfo(nt).name, ntinfo(to).name, ntinfo(nt).name, how, i, hexld(src[i]).c_str(), hexld(back[i]).c_str()));
     V.cls += ";widen-narrow";
@@ -296,7 +304,7 @@ static rc::Gen<Case> gen_c16(int inst) {
   const int narrow = ntinfo(nt).mant < ntinfo(t2).mant ? nt : t2;
   const int lim = R->kind == 2 ? 8 : (narrow == 0 ? 100 : narrow == 1 ? 900 : 12000);
   return rc::gen::map(rc::gen::tuple(gen_reals(n, nt, -lim, lim, kNeg | kZero), irange(0, 24)), [=](const std::tuple<std::vector<LD>, int>& t) {
-    Case c; c.i = {q, nt, t2, via}; c.r = std::get<0>(t);
+    Case c; c.i = {q, nt, t2, (via == 1 && std::get<1>(t) % 2 == 0) ? 2 : via, (long long)std::get<1>(t) * 2654435761LL % 262144}; c.r = std::get<0>(t);
     if (std::get<1>(t) == 0) for (auto& x : c.r) x = 0;                                   // the all-zero value (zero vector, zero direction)
     if (std::get<1>(t) == 1) for (auto& x : c.r) x = std::signbit(x) ? -(LD)0 : (LD)0;    // signed zeros
     // narrowing: components on, and one source-ulp either side of, a rounding tie of the target type (a cast that goes through an intermediate
@@ -336,8 +344,21 @@ static Verdict c17_history(const Case& c) {
   const VfQuantity* R = row(nt, q); const int n = R->ncomp; const int nops = (int)c.i[2];
   std::vector<int> ops, comp; std::vector<LD> args((size_t)nops * 9), after((size_t)nops * (size_t)n);
   for (int k = 0; k < nops; k++) { ops.push_back((int)c.i[(size_t)(3 + 2 * k)]); comp.push_back((int)c.i[(size_t)(4 + 2 * k)] % n); for (int j = 0; j < 9; j++) args[(size_t)k * 9 + (size_t)j] = c.r[(size_t)(9 + k * 9 + j)]; }
-  if (R->kind == 2) for (auto& o : ops) if (o < 4) o = 4 + (o & 1);  // directions have no raw mutators; keep the copy/memcpy round trips
+  if (R->kind == 2) for (auto& o : ops) if (o < 4 || o > 5) o = 4 + (o & 1);  // directions have no raw mutators; keep the copy/memcpy round trips
   LD init[9]; R->roundtrip(c.r.data(), init);
+  // derived steps (the new value is related to the value the object holds): 6 = SetValue(all components zero, signs from the step's arguments),
+  // 7 = SetValue(the current value with the sign of every zero component flipped) - equal under ==, different bits: the store must still happen
+  bool related = false;
+  {
+    LD cur[9]; for (int i = 0; i < n; i++) cur[i] = init[i];
+    for (int k = 0; k < nops; k++) {
+      LD* a = &args[(size_t)k * 9];
+      if (ops[(size_t)k] == 6) { for (int i = 0; i < n; i++) a[i] = std::signbit(a[i]) ? -(LD)0 : (LD)0; ops[(size_t)k] = 0; }
+      else if (ops[(size_t)k] == 7) { for (int i = 0; i < n; i++) a[i] = cur[i] == 0 ? (std::signbit(cur[i]) ? (LD)0 : -(LD)0) : cur[i]; ops[(size_t)k] = (int)(comp[(size_t)k] % 2); related = true; }
+      if (ops[(size_t)k] <= 1) for (int i = 0; i < n; i++) cur[i] = round_to(nt, a[i]);
+      else if (ops[(size_t)k] <= 3) cur[comp[(size_t)k]] = round_to(nt, a[0]);
+    }
+  }
   if (R->history(c.r.data(), ops.data(), comp.data(), args.data(), nops, after.data()) != 0) return Verdict::skip("mutator-not-available");
   LD model[9]; for (int i = 0; i < n; i++) model[i] = init[i];
   static const char* on[] = {"SetValue(v)", "MutableValue() = v", "MutableValue().Mutable_<c>() = x", "MutableValue().Set_<c>(x)", "copy-assign/copy-construct round trip", "memcpy round trip"};
@@ -351,12 +372,12 @@ static Verdict c17_history(const Case& c) {
       return Verdict::fail(fmt("%s<%s>: after step %d (%s, component %d) the stored component %d is %s, a plain array of numbers holds %s", R->name, ntinfo(nt).name, k, on[ops[(size_t)k]], comp[(size_t)k], i,
                                hexld(after[(size_t)k * (size_t)n + (size_t)i]).c_str(), hexld(model[i]).c_str()));
   }
-  Verdict V; V.nontrivial = kinds.size() >= 2; V.cls = std::string(ntinfo(nt).name) + ";ops" + std::to_string(kinds.size()); return V;
+  Verdict V; V.nontrivial = kinds.size() >= 2; V.cls = std::string(ntinfo(nt).name) + ";ops" + std::to_string(kinds.size()) + (related ? ";with-a-step-that-only-flips-zero-signs" : ""); return V;
 }
 static rc::Gen<Case> gen_c17_history(int inst) {
   const int q = inst % NQ(), nt = inst / NQ();
   return rc::gen::mapcat(irange(1, 12), [=](int nops) {
-    return rc::gen::map(rc::gen::tuple(rc::gen::container<std::vector<int>>((size_t)(2 * nops), irange(0, 5)), gen_reals(9 + 9 * nops, nt, -30, 30, kNeg | kZero)),
+    return rc::gen::map(rc::gen::tuple(rc::gen::container<std::vector<int>>((size_t)(2 * nops), irange(0, 7)), gen_reals(9 + 9 * nops, nt, -30, 30, kNeg | kZero)),
                         [=](const std::tuple<std::vector<int>, std::vector<LD>>& t) { Case c; c.i = {q, nt, nops}; for (int x : std::get<0>(t)) c.i.push_back(x); c.r = std::get<1>(t); return c; });
   });
 }
@@ -614,7 +635,7 @@ int main(int argc, char** argv) {
   }
   {
     Sub s; s.name = "c17.history"; s.property = "C17"; s.instances = NQ() * 3; s.n_quick = 200; s.n_thorough = 4000; s.gen = gen_c17_history; s.run = c17_history; s.instance_name = iname;
-    s.rule = "histories of 1..12 mutator steps (SetValue, MutableValue()=, Mutable_<c>()=, Set_<c>(), copy round trip, memcpy round trip) against a plain array of numbers, compared bit for bit after every step; non-trivial: >= 2 kinds of step";
+    s.rule = "histories of 1..12 mutator steps (SetValue, MutableValue()=, Mutable_<c>()=, Set_<c>(), copy round trip, memcpy round trip; also steps whose new value is all zeros or the held value with the signs of its zeros flipped - equal under ==, different bits) against a plain array of numbers, compared bit for bit after every step; non-trivial: >= 2 kinds of step";
     subs.push_back(s);
   }
   {
